@@ -39,11 +39,13 @@ Qed.
 Lemma floor_min_le1 m : m <= 3 -> floor_min m <= 1.
 Proof. intro H. unfold floor_min. apply Z.lt_succ_r. apply Z.div_lt_upper_bound; lia. Qed.
 
-Lemma go_int_half_zero m : -1 <= m -> (go_int_half m = 0 <-> floor_min m <= 0).
+(* Min() <= 0 (what BooleanSearcher tests) iff the documented minimum floor(min) is <= 0: both
+   say min < 1, for negative minima too (int() truncates towards zero, floor rounds down) *)
+Lemma go_int_half_le0 m : go_int_half m <= 0 <-> floor_min m <= 0.
 Proof.
-  intro H. destruct (Z_lt_le_dec m 0) as [H0|H0].
-  - assert (m = -1) as -> by lia. split; [intros _|reflexivity]. unfold floor_min. cbn. lia.
-  - rewrite go_int_half_nonneg by exact H0. unfold floor_min. pose proof (Z.div_pos m 2 H0). lia.
+  destruct (Z_lt_le_dec m 0) as [H0|H0].
+  - pose proof (go_int_half_neg m H0). lia.
+  - rewrite go_int_half_nonneg by exact H0. reflexivity.
 Qed.
 
 (* ---------------------------------------------------------------- lists *)
@@ -380,10 +382,9 @@ Section Link.
   Lemma bool_core must should min2 mustnot m s n :
     must_ok must m -> should_ok should min2 s -> mustnot_ok mustnot n ->
     owf m -> owf s -> owf n ->
-    negb (nonempty must) || negb (nonempty should) || (-1 <=? min2) = true ->
     denote (Bool true (must1 m s n) s n) = sem c (QBool must should min2 mustnot None).
   Proof.
-    intros Hm Hs Hn Wm Ws Wn Hmin.
+    intros Hm Hs Hn Wm Ws Wn.
     assert (wf (Bool true (must1 m s n) s n)) as W.
     { pose proof match_all_wf. destruct m, s, n; cbn; repeat split; auto. }
     apply by_docs; [apply denote_ascending; exact W| |].
@@ -393,7 +394,7 @@ Section Link.
       (destruct s as [ts|]; cbn in Hs; [destruct Hs as (_ & Hs & _)|clear Hs]);
       (destruct n as [tn|]; cbn in Hn; [destruct Hn as [_ Hn]|clear Hn]);
       cbn [must1 denote match_all]; try rewrite Hm; try rewrite Hs; try rewrite Hn;
-      try destruct (min_of ts =? 0);
+      try destruct (min_of ts <=? 0);
       rewrite ?diff_In, ?inter_In; intros; repeat match goal with H : _ /\ _ |- _ => destruct H end;
       try (eapply sem_sub_ids; eassumption); try assumption; try contradiction.
     - intros d Hd. pose proof (countb_nonneg (matches d) should) as Hc0.
@@ -402,9 +403,9 @@ Section Link.
       (destruct n as [tn|]; cbn in Hn; [destruct Hn as [En Hn]; apply nonempty_true in En|subst mustnot]);
       cbn [must1 denote match_all]; try rewrite Hm; try rewrite Hs; try rewrite Hn; try rewrite Hmo;
       cbn [Sem.matches]; rewrite ?Em, ?Es, ?En; cbn [nonempty forallb existsb orb andb negb];
-      try (rewrite Em, Es in Hmin; cbn in Hmin; apply Z.leb_le in Hmin;
-           pose proof (go_int_half_zero min2 Hmin) as Hz;
-           destruct (go_int_half min2 =? 0) eqn:Eq0; [apply Z.eqb_eq in Eq0|apply Z.eqb_neq in Eq0]);
+      pose proof (go_int_half_le0 min2) as Hz;
+      try match goal with |- context [go_int_half min2 <=? 0] =>
+            destruct (go_int_half min2 <=? 0) eqn:Eq0; [apply Z.leb_le in Eq0|apply Z.leb_gt in Eq0] end;
       rewrite ?diff_In, ?inter_In, ?(In_sem_doc d _ Hd), ?matches_mustnot; cbn [Sem.matches];
       rewrite ?Em, ?Es, ?En; cbn [orb andb negb];
       repeat match goal with |- context [?a <=? ?b] =>
@@ -523,7 +524,7 @@ Section Link.
       cbn [linkable] in Hl.
       apply andb_true_iff in Hl as [Hl Lf]. apply andb_true_iff in Hl as [Hl Ln].
       apply andb_true_iff in Hl as [Hl Ls]. apply andb_true_iff in Hl as [Hl Lm].
-      apply andb_true_iff in Hl as [Hmin Hsingle].
+      rename Hl into Hsingle.
       rewrite tree_of_bool in Ht.
       destruct (sequence (map (tree_of o c) mustnot)) as [tn|] eqn:En; [|discriminate].
       destruct (sequence (map (tree_of o c) must)) as [tm|] eqn:Em; [|discriminate].
@@ -556,7 +557,7 @@ Section Link.
       { destruct n as [t0|]; cbn in Kn |- *; [destruct Kn as (H1 & _ & H2 & _); auto|exact Kn]. }
       pose proof (clause_good_wf _ _ _ _ Km) as Wm. pose proof (clause_good_wf _ _ _ _ Ks) as Ws.
       pose proof (clause_good_wf _ _ _ _ Kn) as Wn.
-      pose proof (bool_core must should min2 mustnot m s n Om Os On Wm Ws Wn Hmin) as Hcore.
+      pose proof (bool_core must should min2 mustnot m s n Om Os On Wm Ws Wn) as Hcore.
       split; [|split].
       + apply assemble_wf; auto. destruct f as [tf|]; [|exact I].
         destruct Kf as (fq & _ & (H & _)). exact H.
